@@ -3,12 +3,13 @@ from rules.common import *
 
 TECHNIQUE = ("static analysis: who-may-construct + dominance (PlainPacket built only after header-protection removal, "
              "packet-number acceptance and AEAD success), ADT privacy facts, must-not-reach of key-state writers before "
-             "authentication, threshold agreement between the writer's minimum and the reader's sampling guards")
+             "authentication, guard extraction at the receive-side key update, threshold agreement between the writer's minimum and the reader's sampling guards")
 LEVEL_TEXT = ("Static analysis of the type-checked MIR of /repo: a PlainPacket (the only type frames are read from) is "
               "constructed only in CipherPacket::decrypt_long_packet/decrypt_short_packet, on paths where removing header "
               "protection returned Ok(Some), the packet-number decoder returned Ok and decrypt_packet returned Ok; its "
               "fields are private so no other module can forge one; frames are read only from PlainPacket::body(); no call "
-              "made before AEAD success may reach a writer of the 1-RTT key state; the reader's header-protection sampling "
+              "made before AEAD success may reach a writer of the 1-RTT key state; the receive-side key update is guarded by both "
+              "`phase differs` and `no key retained for that phase`; the reader's header-protection sampling "
               "guards accept exactly the payload sizes the writer guarantees (>= 20 bytes = 4 + 16-byte sample). Necessary "
               "structural conditions; bit-for-bit round trip and rejection of every corruption are AEAD properties not decided.")
 NOT_DECIDED = ["bit-for-bit recovery of header, packet number, key phase and payload (AEAD / header-protection arithmetic)",
@@ -56,6 +57,8 @@ def run(ctx):
                    "decrypt_packet Ok; its fields are private; frames are read only from PlainPacket::body()")
     ctx.rule("R2", "sampling-guard agreement: the reader accepts exactly payloads >= 20 bytes (4 + 16-byte sample), the minimum the writer guarantees")
     ctx.rule("R3", "no key-state mutation before authentication in decrypt_short_packet")
+    ctx.rule("R4", "a key update on receipt happens only for a key phase that differs from the current one AND for which no key "
+                   "is retained: the previous generation's key survives late (reordered) packets of the old phase")
 
     # ---------------------------------------------------------------- R1
     ctors = [(b, i, j, rv, line) for b in prog.bodies.values() for (i, j, rv, line) in agg_sites(b, "^" + re.escape(PKT) + r"::PlainPacket$")]
@@ -147,5 +150,41 @@ def run(ctx):
                "calls made before decrypt_packet that reach writers of OneRttPacketKeys.{cur_phase,local,remote}: %s — the key "
                "phase bit is only header-protected, not authenticated: a forged packet with a flipped key-phase bit rotates "
                "the local and remote keys before its tag is checked" % (pre or "none"))
+    # ---------------------------------------------------------------- R4
+    gr = ctx.anchor("R4", "qbase::packet::keys::OneRttPacketKeys::get_remote")
+    if gr:
+        ups = call_blocks(gr, r"OneRttPacketKeys::update$")
+        ctx.floor("R4", "update() call sites in get_remote", len(ups), 1)
+
+        def guarded(call_blk, side, target):
+            """target runs only on the `side` outcome of the bool-returning call"""
+            oe = outcome_edges(gr, call_blk)
+            if oe is None or not gr.dominates(call_blk, target):
+                return False
+            other = oe["err"] if side == "ok" else oe["ok"]
+            return bool(oe[side]) and target not in gr.reachable_from(list(other), avoid={call_blk})
+        phase_tests, none_tests = [], []
+        for i, t in gr.calls():
+            nm = callee(t)
+            if re.search(r"cmp::PartialEq(<.*>)?::(ne|eq)$|PartialEq>::(ne|eq)$", nm) and len(t["args"]) == 2:
+                roles = set()
+                for a in t["args"]:
+                    for pl in deep_places(gr, a, 4):
+                        roles |= set(place_fields(pl))
+                        roles |= set("arg%d" % og[1] for og in gr.trace_local(pl[0]) if og[0] == "arg")
+                if "cur_phase" in roles and "arg2" in roles:
+                    phase_tests.append((i, "ok" if nm.endswith("ne") else "err"))
+            if re.search(r"option::Option(<.*>|::<.*>)?::is_none$", nm) and t["args"]:
+                if any("remote" in place_fields(pl) for pl in deep_places(gr, t["args"][0], 4)):
+                    none_tests.append(i)
+        for u in ups:
+            ok_phase = any(guarded(i, side, u) for (i, side) in phase_tests)
+            # for a bool-returning call outcome_edges names the true edge 'ok'
+            ok_none = any(guarded(i, "ok", u) for i in none_tests)
+            ctx.ob("R4", "%s|update() only for a different phase with no retained key" % gr.short, ok_phase and ok_none, gr.where(gr.term(u)["line"]),
+                   "update() at bb%d: under `key_phase != cur_phase`: %s (tests at %s); under `remote[phase].is_none()`: %s (tests at %s) — "
+                   "without the second condition a late packet of the previous phase (reordering), or the next genuine packet after one "
+                   "forged phase bit, rotates the keys again: the retained key is overwritten and both directions lose sync for good"
+                   % (u, ok_phase, [i for i, _ in phase_tests], ok_none, none_tests))
     ctx.assume("HeaderProtectionKey::sample_len() == 16 for every QUIC v1 cipher suite (RFC 9001 §5.4)")
     ctx.assume("decrypt_packet returns Ok only if the AEAD tag verifies (rustls/ring contract)")
